@@ -148,6 +148,38 @@ func runC14(args []string) error {
 		}
 		one(w, h, c, p, near, api, cls)
 	}
+	// long run-interruption histories: a flat image with sparse deviations of +-(NEAR+1)..: every deviation ends a run, so one
+	// run-interruption context is updated well over RESET (64) times - the halving of A, N, Nn at N = RESET (A.23) and the
+	// map bit of A.21 that depends on it are only reached by such histories (the bounded model reaches them with RESET = 3)
+	nri := 40
+	if f.maxdim > 20 {
+		nri = 300
+	}
+	for i := 0; i < nri; i++ {
+		p := []int{5, 7, 6, 5, 7, 4}[i%6] // small precisions: A starts near 2..4, so the context sits at k = 0 from the first reset on
+		near := []int{0, 0, 0, 0, 0, 1}[i%6]
+		api := []string{"jls", "jlsnear"}[i%2]
+		if near > 0 {
+			api = "jlsnear"
+		}
+		w, h := 36+r.Intn(12), 20+r.Intn(8)
+		maxval := (1 << p) - 1
+		base := maxval/3 + r.Intn(maxval/3)
+		src := make([]int, w*h)
+		for j := range src {
+			src[j] = base
+			if r.Intn(6) == 0 {
+				d := near + 1 // quantised error +-1: keeps the run-interruption context at k = 0, where the map bit of A.21 depends on Nn
+				if r.Intn(2) == 0 {
+					d = -d
+				}
+				src[j] = base + d
+			}
+		}
+		scn++
+		t.Reset(scn)
+		jlsRecord(t, w, h, 1, p, near, api, src, "runint")
+	}
 	fmt.Printf("c14: scenarios=%d events=%d\n", scn, t.n)
 	return nil
 }
